@@ -18,6 +18,10 @@ func configs(quick bool) []tsssig.Cfg {
 			{N: 3, T: 2, SigningPeriod: 1, MaxSigningAttempt: 1, MaxDESize: 4, InitDE: 2, MaxReq: 2, Depth: 7, Events: ev, FeePerSigner: 10},
 			// signing_period reduced / restored by governance while attempts are in flight
 			{N: 3, T: 2, SigningPeriod: 3, MaxSigningAttempt: 2, MaxDESize: 4, InitDE: 3, MaxReq: 2, Depth: 8, Events: []string{"req", "sig", "period", "block"}, FeePerSigner: 10},
+			// max_signing_attempt lowered / restored by governance while attempts are in flight
+			{N: 3, T: 2, SigningPeriod: 1, MaxSigningAttempt: 3, MaxDESize: 5, InitDE: 4, MaxReq: 1, Depth: 8, Events: []string{"req", "sig", "maxatt", "block"}, FeePerSigner: 10},
+			// threshold = group size: every member is needed, an unavailable one makes the signing fall
+			{N: 2, T: 2, SigningPeriod: 1, MaxSigningAttempt: 3, MaxDESize: 4, InitDE: 3, MaxReq: 2, Depth: 7, Events: ev, FeePerSigner: 10},
 		}
 	}
 	var out []tsssig.Cfg
@@ -29,6 +33,8 @@ func configs(quick bool) []tsssig.Cfg {
 		}
 	}
 	out = append(out, tsssig.Cfg{N: 3, T: 2, SigningPeriod: 3, MaxSigningAttempt: 3, MaxDESize: 5, InitDE: 4, MaxReq: 3, Depth: 10, Events: []string{"req", "sig", "period", "act", "block"}, FeePerSigner: 10})
+	out = append(out, tsssig.Cfg{N: 3, T: 2, SigningPeriod: 1, MaxSigningAttempt: 3, MaxDESize: 5, InitDE: 4, MaxReq: 2, Depth: 10, Events: []string{"req", "sig", "maxatt", "act", "block"}, FeePerSigner: 10},
+		tsssig.Cfg{N: 2, T: 2, SigningPeriod: 1, MaxSigningAttempt: 3, MaxDESize: 4, InitDE: 3, MaxReq: 2, Depth: 10, Events: ev, FeePerSigner: 10})
 	out = append(out, tsssig.Cfg{N: 3, T: 3, SigningPeriod: 1, MaxSigningAttempt: 2, MaxDESize: 4, InitDE: 2, MaxReq: 2, Depth: 10, Events: ev, FeePerSigner: 10},
 		tsssig.Cfg{N: 2, T: 1, SigningPeriod: 2, MaxSigningAttempt: 3, MaxDESize: 3, InitDE: 2, MaxReq: 3, Depth: 10, Events: ev, FeePerSigner: 10})
 	return out
